@@ -111,17 +111,24 @@ void *bpf_map_lookup_elem(void *map, const void *key) {
     return (AUD.present && AUD.key.protocol == k->protocol && AUD.key.source_port == k->source_port) ? (void *)&AUD.val : NULL; }
   MODEL_LIMIT(0, "lookup on an object that is not one of the four maps"); return NULL; }
 
+/* flags as documented for bpf_map_update_elem: BPF_ANY(0) create or update; BPF_NOEXIST(1) create only, -EEXIST(-17) if the key
+   exists; BPF_EXIST(2) update only, -ENOENT(-2) if it does not. `has` = the map holds an element under exactly this key. */
+#define UPD_FLAGS(has) do { MODEL_LIMIT(flags <= 2, "update flags other than BPF_ANY / BPF_NOEXIST / BPF_EXIST"); \
+    if (flags == 1 && (has)) return -17; if (flags == 2 && !(has)) return -2; } while (0)
 long bpf_map_update_elem(void *map, const void *key, const void *value, __u64 flags) {
-  MODEL_LIMIT(flags == 0, "update flags other than BPF_ANY");
   /* A write to a map is a write to its cell; whether the hook MAY write it is decided by the assigns clause
      of the contract (label .frame), not here. */
   if (map == (void *)&local_map) { touch_loc(*(const __u64 *)key);
+    UPD_FLAGS(LOC.present && LOC.key == *(const __u64 *)key);
     LOC.present = 1; LOC.key = *(const __u64 *)key; LOC.val = *(const sock_addr_local_entry *)value; return 0; }
   if (map == (void *)&audit_map) { touch_aud((const sock_addr_audit_key *)key);
+    UPD_FLAGS(AUD.present && AUD.key.protocol == ((const sock_addr_audit_key *)key)->protocol && AUD.key.source_port == ((const sock_addr_audit_key *)key)->source_port);
     AUD.present = 1; AUD.key = *(const sock_addr_audit_key *)key; AUD.val = *(const sock_addr_audit_entry *)value; return 0; }
   if (map == (void *)&policy_map) { touch_pol((const destination_entry *)key);
+    UPD_FLAGS(POL.present && dest_eq((const destination_entry *)key, &POL.key));
     POL.present = 1; POL.key = *(const destination_entry *)key; POL.val = *(const destination_entry *)value; return 0; }
   if (map == (void *)&skip_process_map) { touch_skip(((const sock_addr_skip_process_entry *)key)->pid);
+    UPD_FLAGS(SKIP.present && SKIP.key.pid == ((const sock_addr_skip_process_entry *)key)->pid);
     SKIP.present = 1; SKIP.key = *(const sock_addr_skip_process_entry *)key; SKIP.val = *(const sock_addr_skip_process_entry *)value; return 0; }
   MODEL_LIMIT(0, "update on an object that is not one of the four maps"); return -1; }
 
